@@ -6,6 +6,7 @@ Content-Length handling, retry loop, checksum, parse, pickle and rename are all 
 import email.message
 import gzip as _gzip
 import hashlib
+import zlib
 import io
 import urllib.error
 import urllib.request
@@ -23,10 +24,19 @@ def payload_text(url, rows=40):
     return "\n".join(lines) + "\n"
 
 
+def _gzip_members(data, k):
+    """a gzip archive of k members (what appending with gzip.open(path, "ab") or `cat a.gz b.gz` produces): the
+    verified data is the concatenation of ALL members, cut at line boundaries"""
+    lines = data.splitlines(keepends=True)
+    k = max(1, min(k, len(lines)))
+    cut = [len(lines) * j // k for j in range(k + 1)]
+    return b"".join(_gzip.compress(b"".join(lines[cut[j]:cut[j + 1]]), mtime=0) for j in range(k))
+
+
 def payload_bytes(url, kind="good", rows=40, gz=False):
     good = payload_text(url, rows).encode()
     if gz:
-        good = _gzip.compress(good, mtime=0)
+        good = _gzip_members(good, 1 + zlib.crc32(url.encode()) % 3)
     if kind == "good":
         return good
     if kind == "corrupt":          # same length, different content: parses fine, wrong checksum
@@ -61,6 +71,7 @@ class FakeNet:
         self.gz = {}
         self.requests = []
         self.slow = 0.0
+        self.hold = None            # threading.Barrier: hold responses until that many requests are in flight
 
     def configure(self, scripts=None, default="good", rows=None, gz=None):
         self.scripts = {u: list(a) for u, a in (scripts or {}).items()}
@@ -78,6 +89,12 @@ class FakeNet:
         url = req.full_url
         action = self.next_action(url)
         self.requests.append([url, action])
+        hold = self.hold
+        if hold is not None:
+            try:
+                hold.wait(timeout=3)
+            except Exception:           # broken barrier / timeout: a loader did not get as far as its request
+                pass
         rows = self.rows.get(url, 40)
         gz = self.gz.get(url, False)
         if action == "urlerror":
